@@ -1,4 +1,4 @@
-(** C04: last owner gone => Dropped; never while owned (Layer R) -- PARTIAL (two of the five clauses of the monitor
+(** C04: last owner gone => Dropped; never while owned (Layer R) -- PARTIAL (three of the five clauses of the monitor
     proved for every program; the census behind them closed).
     C04_ok (rev t) = okx chkN t && okx chkR t && okx chkS t  ([C04_monitor_split]: the monitor is a total state
     function [st04] plus three checks: at `notify a Dropped`, at `runret`, at `slablen`).
@@ -15,12 +15,15 @@
     + EOwnNew - EOwnDrop of the trace; the deferred terminate(Dropped) is queued exactly when it goes 1 -> 0.
     The inline deferrer is excluded: a kill! queued while no Stakker exists parks an owner that is never released
     ([C04_inline_deferrer_refuted]: C04_ok is false on the model trace).
-    Not yet proved (validated by ./check C04): second clause of chkN (the termination takes the drop's place in the
-    queue), second clause of chkR (slab children of a terminated parent terminate in the same run), chkS (slab.len()). *)
+      [C04_notify_check]               the whole of chkN, with [C04_drop_takes_queue_place]: at `notify a Dropped` every
+          call to a that was pending when its last visible owner went has been started or discarded (the termination
+          takes the drop's place in the main queue).
+    Not yet proved (validated by ./check C04): second clause of chkR (slab children of a terminated parent terminate
+    in the same run), chkS (slab.len()). *)
 From Coq Require Import ZArith NArith List Bool.
 Import ListNotations.
 From Stk Require Import Lib.U Gen.SrcCount R.Syntax R.Rt R.Mon R.Count R.OneStep.
-From Stk Require Import R.Own R.OwnLaw R.OwnVis R.C04Mon R.C04Base R.C04A3 R.C04B2.
+From Stk Require Import R.Own R.OwnLaw R.OwnVis R.C04Mon R.C04Base R.C04A3 R.C04B2 R.C04N.
 Local Open Scope Z_scope.
 
 Theorem C04_owner_count_partial :
@@ -58,6 +61,19 @@ Theorem C04_never_dropped_while_owned_chk : forall (p : list top) (fuel : nat) (
   exec DGlobal fuel p = Done t -> Z.of_nat (length t) < CMAX - 1 -> okx chkN1 (rev t) = true.
 Proof. exact C04_never_while_owned_proved. Qed.
 Print Assumptions C04_never_dropped_while_owned_chk.
+
+
+(* the termination takes the drop's place in the main queue: calls pending when the last visible owner went are
+   processed before the Dropped notification; with the previous theorem: the whole check made at `notify a Dropped` *)
+Theorem C04_drop_takes_queue_place : forall (p : list top) (fuel : nat) (t : list ev),
+  exec DGlobal fuel p = Done t -> Z.of_nat (length t) < CMAX - 1 -> okx chkN2 (rev t) = true.
+Proof. exact C04_drop_takes_queue_place_proved. Qed.
+Print Assumptions C04_drop_takes_queue_place.
+
+Theorem C04_notify_check : forall (p : list top) (fuel : nat) (t : list ev),
+  exec DGlobal fuel p = Done t -> Z.of_nat (length t) < CMAX - 1 -> okx chkN (rev t) = true.
+Proof. exact C04_notify_check_proved. Qed.
+Print Assumptions C04_notify_check.
 
 (* last owner gone => notified by the time run returns *)
 Theorem C04_last_owner_terminates : forall (p : list top) (fuel : nat) (t : list ev),
